@@ -1,12 +1,22 @@
 ------------------------------ MODULE Trace_C10 ------------------------------
 EXTENDS RobustTraffic, FindingsC10, Json, CSV
+(* the structured universe: its atoms, to check that every logged structured case is a case of the universe *)
+RS == INSTANCE RobustShapes WITH P <- 59, K <- 1, Seed <- 1, NModes <- 5, ri <- 0, rj <- 0, rk <- 0, rm <- 0
 Trace == ndJsonDeserialize("trace.ndjson")
 VARIABLE l
 TInit == l = 0 /\ feats = {} /\ muts = <<>> /\ side = "request" /\ multi = FALSE
 TNext == l < Len(Trace) /\ l' = l + 1 /\ UNCHANGED vars
 TSpec == TInit /\ [][TNext]_<<l, vars>>
+IsShape(c) == "kind" \in DOMAIN c /\ c.kind = "shape"
+(* Realised = Case: the case the harness logged is one of the universe the generator spans *)
+SeqRange(s) == {s[x] : x \in DOMAIN s}
+InUniverse(c) ==
+   IF IsShape(c) THEN RS!ShapeInUniverse(c)
+   ELSE /\ SeqRange(c.feats) \subseteq DocFeatures
+        /\ SeqRange(c.muts) \subseteq (IF c.side = "request" THEN ReqMutations ELSE RespMutations)
+LineFailed(line) == Failed(line.obs) \cup (IF InUniverse(line.c) THEN {} ELSE {"case_in_universe"})
 LineOK(line) ==
-   LET bad == Failed(line.obs) IN
+   LET bad == LineFailed(line) IN
    bad = {} \/ CSVWrite("%1$s", <<ToJson([case |-> line.case, c |-> line.c, failed |-> bad, obs |-> line.obs,
                                            msg |-> (IF "msg" \in DOMAIN line THEN line.msg ELSE ""), class |-> Class(line, bad)])>>,
                         "violations.ndjson")
